@@ -67,3 +67,9 @@ def scratch_dir():
     import tempfile
     base = '/dev/shm' if os.path.isdir('/dev/shm') else None
     return tempfile.mkdtemp(prefix='mido-mc-', dir=base)
+
+
+def scratch_root():
+    d = '/dev/shm/mido-mc-scratch' if os.path.isdir('/dev/shm') else '/tmp/mido-mc-scratch'
+    os.makedirs(d, exist_ok=True)
+    return d
